@@ -305,6 +305,9 @@ def run(ctx):
     ctx.set_cover(render_flow_model=rf, render_flow_scenarios=len(traces))
     ctx.sample({"kind": "observed calls of the real render worker (nslave.Commands.rpc_render via qs.slave.Worker.dispatch)",
                 "calls": raw[1]})
+    # ---- beyond the listed property: the front end (spec/Front.tla: watchers, sticky assignment, overload)
+    from harness import front
+    front.check(ctx, quick)
     ctx.assume("header safety is a character-level predicate evaluated by the harness on concrete filenames, not by TLC",
                "the RPC layer is replaced by an in-process proxy with a JSON round trip",
                "assumptions of C16-C18 about the queue driver")
